@@ -3,7 +3,7 @@
 # (/tmp/wt/<ID>, pristine): patch applies, suite passes with it, demo fails with it and passes without.
 # On success copies it to /verif/seeded/<ID>-<X>/ with meta.json (fields filled from the runs).
 set -u
-ID="$1"; X="$2"; WT=/tmp/wt/$ID; SRC=$WT/seeded_out/$X; DST=/verif/seeded/$ID-$X
+ID="$1"; X="$2"; BASE="${3:-/tmp/wt}"; NAME="${4:-$X}"; WT=$BASE/$ID; SRC=$WT/seeded_out/$X; DST=/verif/seeded/$ID-$NAME
 cd "$WT" || exit 2
 git checkout -q -- src
 git apply --check "$SRC/patch.diff" || { echo "$ID-$X: patch does not apply"; exit 1; }
@@ -13,9 +13,9 @@ echo "$ID-$X suite with change: $T"
 case "$T" in *"605 passed; 0 failed"*) ;; *) echo "$ID-$X: suite does not pass with the change"; git checkout -q -- src; exit 1;; esac
 DEMO=""
 if [ -f "$SRC/demo.sh" ]; then
-  bash "$SRC/demo.sh" "$WT" > /tmp/wt/$ID-$X.with.log 2>&1; W=$?
+  bash "$SRC/demo.sh" "$WT" > $BASE/$ID-$X.with.log 2>&1; W=$?
   git checkout -q -- src
-  bash "$SRC/demo.sh" "$WT" > /tmp/wt/$ID-$X.without.log 2>&1; O=$?
+  bash "$SRC/demo.sh" "$WT" > $BASE/$ID-$X.without.log 2>&1; O=$?
   DEMO="demo.sh"
 else
   echo "$ID-$X: no demo.sh (manual confirmation needed)"; git checkout -q -- src; exit 1
@@ -24,14 +24,14 @@ echo "$ID-$X demo: with change exit=$W, without exit=$O"
 if [ "$W" = "0" ] || [ "$O" != "0" ]; then echo "$ID-$X: demo does not discriminate"; exit 1; fi
 mkdir -p "$DST"
 cp -r "$SRC"/. "$DST"/
-python3 - "$ID" "$X" "$T" "$W" "$O" <<'PY'
+python3 - "$ID" "$NAME" "$T" "$W" "$O" <<'PY'
 import json,sys,os
 ID,X,T,W,O=sys.argv[1:6]
 dst="/verif/seeded/%s-%s"%(ID,X)
 notes=open(os.path.join(dst,"NOTES.md")).read() if os.path.exists(os.path.join(dst,"NOTES.md")) else ""
 meta={"id":"%s-%s"%(ID,X),"breaks_property":ID,"author":"independent sub-agent given only the property text and a scratch worktree",
  "needs_to_manifest":"see NOTES.md (trigger section)",
- "confirmed_by_me":{"patch_applies_to":"pristine a43a559 worktree and /repo HEAD","suite_with_change":T,"demo_with_change_exit":int(W),"demo_without_change_exit":int(O),
+ "confirmed_by_me":{"patch_applies_to":"scratch worktree of /repo at the time of writing and /repo HEAD","suite_with_change":T,"demo_with_change_exit":int(W),"demo_without_change_exit":int(O),
    "commands":["git apply patch.diff","cargo test --workspace --offline","bash demo.sh <tree>  (with and without the change)"]},
  "detected_by":[]}
 json.dump(meta,open(os.path.join(dst,"meta.json"),"w"),indent=1)
